@@ -291,7 +291,12 @@ CHECKS["C15"] = dict(
 
 CHECKS["C16"] = dict(
     technique="Integrator arithmetic and statement order regenerated from integrator.py (ast translator T9) and proved to be the model; Coq proofs over any commutative ring / any gradient function / any dimension and step count: the code's leapfrog arrangement = L kick-drift-kick steps, exact reversibility, shear decomposition with unit Jacobian determinant (mathcomp determinants), exact conservation of the modified energy for harmonic targets, Hastings = change of kinetic energy; exact-rational correspondence on Gaussian targets and oracle-gradient correspondence on transformed/phylogenetic targets",
-    text="24 theorems in prop/C16.v: C16_integrator_source_is_model (the integrator assembled, in the statement order of the source, from the "
+    text="29 theorems in prop/C16.v: C16_jacobian_determinant_one (COMPLETE volume preservation: in every dimension, for every "
+         "Frechet-differentiable gradient, diagonal or dense mass matrix, step size, step count and point, the matrix of partial "
+         "derivatives of the implemented map (q,p) -> leapfrog(q,p) exists and its determinant — mathcomp's Leibniz determinant over R, "
+         "R made a comRingType in proof/P_Rring.v — is exactly one; C16_coordinates_are_list_entries / C16_basis_is_unit_vectors / "
+         "C16_detU_is_determinant_like / C16_detU_homothety say what the coordinates, the basis and the determinant are), "
+         "C16_integrator_source_is_model (the integrator assembled, in the statement order of the source, from the "
          "arithmetic regenerated from LeapfrogIntegrator.__call__ by translator T9 is the model's leapfrog: any number type, mass "
          "matrix, gradient, step count), C16_leapfrog_is_standard, C16_leapfrog_reversible (flip o leapfrog o flip o leapfrog = id for ANY grad), "
          "C16_leapfrog_shear_decomposition, C16_shear_jacobians_det_one / C16_shear_matrices_act_as_shears / C16_volume_preserving_dim1, "
@@ -308,8 +313,8 @@ CHECKS["C16"] = dict(
          "validated against autograd on a fresh model; geometric identities (forward-flip-forward, autograd Jacobian determinant, energy "
          "error at eps, eps/2, eps/4) evaluated on the implementation.",
     note="Trusted: Coq kernel; hand-written M_leapfrog.v; gradient oracle tables; general-target O(eps^2) is partial "
-         "(implementation-side check only); in dimension > 1 the determinant functional of the nonlinear volume theorem is abstract "
-         "(its identification with the determinant of the matrix of partial derivatives is not formalised). " + AX_R,
+         "(implementation-side check only). Axioms of the volume theorem: the real-number axioms, classic, functional extensionality "
+         "and ClassicalEpsilon.constructive_indefinite_description (needed to give R mathcomp's choiceType). " + AX_R,
     design="§6 C16")
 
 CHECKS["C17"] = dict(
